@@ -288,6 +288,98 @@ def run(ck):
                         [int(Hm_.dim), got_n], [dimw + dime, counts])
         except Exception as e:
             ck.fail("raises:molecule-levels", "molecule with many vibrational levels raised %r" % (e,), inpm)
+    # ---- molecules with several modes: the dipole operator of the molecule (common oscillator basis: overlaps are Kronecker deltas
+    #      mode by mode) ----------------------------------------------------------------------------------------------------------
+    for hm_ in range(ck.n(3, 8)):
+        nmodes = (2, 3, 2)[hm_ % 3]
+        lv = [(rng.randint(2, 3), rng.randint(2, 3)) for _ in range(nmodes)]
+        dvec = [float(rng.randint(1, 3)), float(rng.randint(-2, 2)), 0.5]
+        inpm = {"molecule": "two electronic states, %d modes" % nmodes, "declared_levels_(ground,excited)_per_mode": lv, "dipole": dvec}
+        try:
+            mol = Molecule([0.0, 10.0]); mol.set_dipole(0, 1, dvec)
+            for (g_, e_) in lv:
+                md_ = Mode(frequency=0.5 + 0.125 * rng.randint(0, 2)); mol.add_Mode(md_)
+                md_.set_nmax(0, g_); md_.set_nmax(1, e_); md_.set_HR(1, rng.choice([0.2, 0.6]))
+            mol.get_Hamiltonian()
+            dip = numpy.array(mol.get_TransitionDipoleMoment().data)
+            sts = list(mol.all_states)
+            ck.case(("molecule-dipole", str(lv), hm_), nontrivial=True, second_build=False, nmol=1, modes=nmodes, Ntot=0)
+            badm = None
+            for a_, (na_, va_) in enumerate(sts):
+                for b_, (nb_, vb_) in enumerate(sts):
+                    same = all(int(x_) == int(y_) for x_, y_ in zip(va_, vb_))
+                    want = numpy.array(dvec) if (same and {int(na_), int(nb_)} == {0, 1}) else numpy.zeros(3)
+                    if numpy.abs(dip[a_, b_] - want).max() > 1e-12:
+                        badm = (a_, b_, dip[a_, b_].tolist(), want.tolist(), [int(na_), [int(x_) for x_ in va_]], [int(nb_), [int(x_) for x_ in vb_]])
+            if badm:
+                ck.fail("product:dipole:molecule", "dipole element of a molecule with several modes is not the electronic dipole times the product of the "
+                        "modes' overlaps", dict(inpm, states=[badm[4], badm[5]]), badm[2], badm[3])
+        except Exception as e:
+            ck.fail("raises:molecule-dipole", "dipole operator of a molecule with several modes raised %r" % (e,), inpm)
+    # ---- two-exciton band of a vibronic trimer: every coupling and dipole element is the electronic quantity times the overlap product -----
+    for ht_ in range(ck.n(1, 4)):
+        try:
+            Et = [10.0, 11.0, 12.5]
+            Jt = {(0, 1): 0.75, (0, 2): -0.5, (1, 2): 1.25}
+            Dt = [[1.0, 0.0, 0.0], [0.0, 2.0, 0.0], [1.0, 1.0, -1.0]]
+            hrs = [rng.choice([0.3, 0.7, 1.1]), rng.choice([0.4, 0.9])]
+            inpt = {"trimer": "modes on molecules 0 and 1, two levels each, exciton multiplicity 2", "E": Et, "J": {"%d-%d" % k: v for k, v in Jt.items()}, "HR": hrs}
+            molt = []
+            for m_ in range(3):
+                mo = Molecule([0.0, Et[m_]]); mo.set_dipole(0, 1, Dt[m_])
+                if m_ < 2:
+                    mdd = Mode(frequency=0.5); mo.add_Mode(mdd)
+                    mdd.set_nmax(0, 2); mdd.set_nmax(1, 2); mdd.set_HR(1, hrs[m_])
+                molt.append(mo)
+            aggt = Aggregate(molt)
+            for (i_, j_), v_ in Jt.items():
+                aggt.set_resonance_coupling(i_, j_, v_)
+            aggt.build(mult=2)
+            HHt, DDt = numpy.array(aggt.HH), numpy.array(aggt.DD)
+            ov = [[displaced_overlaps(math, sg * math.sqrt(2 * hrs[m_]) / math.sqrt(2.0), 4) for sg in (0.0, -1.0, 1.0)] for m_ in range(2)]
+
+            def fct(a, b):
+                (e1, v1), (e2, v2) = aggt.vibsigs[a], aggt.vibsigs[b]
+                r = 1.0
+                for g_ in range(2):
+                    k_ = 0 if e1[g_] == e2[g_] else (1 if e1[g_] == 1 else 2)       # shift(e1) - shift(e2): 0, +s, -s
+                    k_ = 0 if e1[g_] == e2[g_] else (2 if e1[g_] == 1 else 1)
+                    r *= ov[g_][k_][int(v1[g_])][int(v2[g_])]
+                return r
+            ck.case(("trimer-mult2", ht_, str(hrs)), nontrivial=True, second_build=False, nmol=3, modes=2, Ntot=20)
+            badt = None
+            for a in range(aggt.Ntot):
+                for b in range(aggt.Ntot):
+                    (e1, v1), (e2, v2) = aggt.vibsigs[a], aggt.vibsigs[b]
+                    diff = [i for i in range(3) if e1[i] != e2[i]]
+                    f = fct(a, b)
+                    if a != b:
+                        wantH = Jt[tuple(diff)] * f if (len(diff) == 2 and sum(e1) == sum(e2)) else 0.0
+                        if abs(HHt[a, b] - wantH) > 1e-9:
+                            badt = ("coupling", a, b, float(HHt[a, b]), wantH)
+                    wantD = numpy.array(Dt[diff[0]]) * f if len(diff) == 1 else numpy.zeros(3)
+                    if numpy.abs(DDt[a, b] - wantD).max() > 1e-9:
+                        badt = ("dipole", a, b, DDt[a, b].tolist(), wantD.tolist())
+            if badt:
+                ck.fail("product:%s:two-exciton" % badt[0], "%s element between vibronic states of a trimer with two-exciton states is not the electronic quantity "
+                        "times the product of the modes' overlaps" % badt[0], dict(inpt, states=[str(aggt.vibsigs[badt[1]]), str(aggt.vibsigs[badt[2]])]), badt[3], badt[4])
+        except Exception as e:
+            ck.fail("raises:trimer-mult2", "vibronic trimer with two-exciton states raised %r" % (e,), {})
+    # ---- displacements with an imaginary part (momentum shifts): the shift operator is still the unitary displacement operator ---------------
+    from quantarhei.qm.oscillators.ho import operator_factory as _of2
+    for dcx in (1j, 0.5 + 0.5j, -0.3j + 0.8)[:ck.n(3, 3)]:
+        try:
+            Dc = numpy.array(_of2(N=60).shift_operator(dcx))
+            S_ = abs(dcx) ** 2 / 2.0
+            ck.case(("complex-shift", str(dcx)), nontrivial=True, second_build=False, nmol=0, modes=1, Ntot=0)
+            devp = max(abs(abs(Dc[nq, 0]) ** 2 - math.exp(-S_) * S_ ** nq / math.factorial(nq)) for nq in range(6))
+            devu = float(numpy.abs((Dc.conj().T @ Dc)[:20, :20] - numpy.eye(20)).max())
+            ck.resid("complex displacement: Poisson law / unitarity", max(devp, devu))
+            if devp > 1e-8 or devu > 1e-8:
+                ck.fail("displaced-oscillator:complex-shift", "shift operator for a displacement with an imaginary part is not the unitary displacement operator "
+                        "(Poisson law with mean |d|^2/2 from the ground state, D^+ D = 1 on the low levels)", {"shift": str(dcx)}, [devp, devu])
+        except Exception as e:
+            ck.fail("raises:complex-shift", "shift_operator raised %r" % (e,), {"shift": str(dcx)})
     model = ck.drive(DRIVER, lines)
     if model is not None:
         for l, a, b in zip(lines, impl, model):
